@@ -11,6 +11,7 @@ import ast
 from ..model import (AnalysisError, module_table, callee, norm, src, walk_no_nested,
                      const_value, dotted)
 from . import thrift_sites
+from ..cfg import CFG
 
 ROOTS = ['FileMetaData', 'PageHeader']
 VALUE_NIBBLES = {1: 'bool-true', 2: 'bool-false', 3: 'i8', 4: 'i16', 5: 'i32', 6: 'i64',
@@ -276,6 +277,8 @@ def run(ctx):
     c16.r162(ctx, repo['writer'], repo['util'])
     c16.r166(ctx, repo['util'])
     c16.r161(ctx, repo['writer'])
+    r1010(ctx)
+    r1011(ctx)
     from . import c14
     c14.r145(ctx, 'R10.9')
     # statistics values are binary fields: what is stored there is shared with C04
@@ -300,3 +303,77 @@ def _capacity_guarded(func, stmt):
         if isinstance(st, (ast.If, ast.While)) and 'nbytes' in src(st.test):
             return True
     return False
+
+
+def r1010(ctx, rule='R10.10'):
+    """list fields that the IDL declares *optional* are None on metadata parsed from files that lack them (most
+    foreign files carry no key-value metadata): every loop or comprehension over such a field must be None-safe
+    (`x or []`, or under a test of the same field).  Sites: all modules that handle parsed metadata"""
+    idl = ctx.idl
+    opt = {}
+    for sname, fields in idl.structs.items():
+        for fname, f in fields.items():
+            if f.is_list and f.req != 'required':
+                opt.setdefault(fname, []).append(sname)
+    ctx.floor(rule, 'optional list fields in the IDL', len(opt), 4)
+    n = 0
+    safe_sites = []
+    for mname in ('writer', 'util', 'api', 'core', 'schema'):
+        m = ctx.repo[mname]
+        for q, f in m.funcs.items():
+            cfg = None
+            sites = []
+            for x in walk_no_nested(f):
+                if isinstance(x, (ast.For, ast.comprehension)):
+                    it = x.iter
+                    if isinstance(it, ast.Attribute) and it.attr in opt:
+                        sites.append((x, it))
+                    elif isinstance(it, ast.BoolOp) and isinstance(it.op, ast.Or) and isinstance(it.values[0], ast.Attribute) \
+                            and it.values[0].attr in opt:
+                        safe_sites.append(it)
+            for x, it in sites:
+                n += 1
+                if cfg is None:
+                    cfg = CFG(f)
+                base = norm(it)
+                guarded = False
+                # enclosing tests that mention the same field (truthiness / is not None)
+                holder = x
+                if isinstance(x, ast.comprehension):
+                    for st in walk_no_nested(f):
+                        if isinstance(st, ast.stmt) and any(y is x for y in ast.walk(st)) and st in cfg.stmt_node:
+                            holder = st
+                    # a conditional expression around the comprehension: `[...] if fmd.kv else []`
+                    for y in walk_no_nested(f):
+                        if isinstance(y, ast.IfExp) and any(z is x for z in ast.walk(y.body)) and base in norm(y.test):
+                            guarded = True
+                try:
+                    tests = [norm(e.test) for e, fld in cfg.enclosing_tests(holder) if isinstance(e, (ast.If, ast.While)) and fld == 'body']
+                except Exception:
+                    tests = []
+                if any(base in t for t in tests):
+                    guarded = True
+                # assigned a list earlier in the same function (normalisation `x.f = x.f or []`, or a fresh list)
+                for st in walk_no_nested(f):
+                    if isinstance(st, ast.Assign) and any(norm(t) == base for t in st.targets) and st.lineno < x.iter.lineno:
+                        guarded = True
+                ctx.ob(rule, '%s.%s:loop-over-optional-%s-is-None-safe:%s' % (mname, q, it.attr, base[:40]), guarded,
+                       '`for ... in %s`: %s is optional in the IDL (%s) and None when the file lacks it' % (
+                           base, it.attr, '/'.join(opt[it.attr])), m.loc(it))
+    ctx.stat('%s bare loops over optional list fields' % rule, n)
+    for it in safe_sites:
+        ctx.ob(rule, 'loop-over-optional-%s-is-None-safe:%s' % (it.values[0].attr, norm(it)[:50]), True, 'guarded with `or`', '')
+    ctx.floor(rule, 'loops over optional list fields (bare or guarded)', n + len(safe_sites), 5)
+
+
+def r1011(ctx, rule='R10.11'):
+    """KeyValue.value is optional in the IDL: the pre-write validation of key-value entries must let an absent value
+    through (known finding K10d: it demands str/bytes)"""
+    wr = ctx.repo['writer']
+    f = wr.func('write_thrift')
+    tests = [x for x in ast.walk(f) if isinstance(x, ast.If) and 'kv.value' in norm(x.test) and any(isinstance(y, ast.Raise) for y in x.body)]
+    idl_opt = ctx.idl.structs['KeyValue']['value'].req != 'required'
+    ok = bool(tests) and all('kv.value is not None' in norm(t.test) or 'kv.value is None' in norm(t.test) for t in tests)
+    ctx.ob(rule, 'writer.write_thrift:value-less-key-value-entry-is-re-serialisable', ok or not idl_opt,
+           'validation `%s` raises for an absent value although the IDL declares KeyValue.value optional' % (
+               norm(tests[0].test) if tests else '?'), wr.loc(tests[0]) if tests else wr.loc(f))
